@@ -19,7 +19,7 @@ RULE = ('cases = full product of the condition alphabet x all hit histories (eac
         'all ordered watch pairs; a case is non-trivial when the guarded clause is exercised: the condition rejected '
         'at least one hit and accepted another, a budget was exhausted, or an expression resolved a non-local name / failed')
 ASSUMPTIONS = ['only boolean-valued or failing conditions are in the alphabet (truthiness of other values is not defined by the statement)',
-               'an error result may be WatchResult.error or a variable of the exception type']
+               'an error result is WatchResult.error (a watch whose *value* is an exception object is a good result of that type)']
 
 PROGRAM = '''
 G = 41
@@ -72,6 +72,7 @@ CONDITIONS = [
     ('', 'blank'), ('   ', 'blank'),
     ('TriggerContext is not None', 'agent-name'), ('uuid == "host-uuid"', 'shadowed'),
     ('late > 0', 'late-bound'), ('late == x', 'late-bound'), ('late < 0 or x > 0', 'late-bound'),
+    ('any(i == x for i in lst)', 'nested-scope'), ('(lambda: x > 0)()', 'nested-scope'), ('all(i != x for i in lst)', 'nested-scope'),
 ]
 
 EXPRS = [
@@ -82,6 +83,13 @@ EXPRS = [
     ('VariableCacheProvider', 'agent-name'), ('deep', 'agent-name'), ('ActionContext', 'agent-name'),
     ('uuid', 'shadowed'), ('Dict', 'shadowed'),
     ('1/0', 'failing'), ('missing', 'failing'), ("boom('b')", 'failing'), ("base('b')", 'failing'), ('d[1]', 'failing'),
+    # nested scopes inside the expression must see the frame's locals too
+    ('sum(i * x for i in lst)', 'nested-scope'), ('(lambda: acc + x)()', 'nested-scope'), ('[i + x for i in lst]', 'nested-scope'),
+    ('max(lst, key=lambda v: v * x)', 'nested-scope'), ('any(i > x for i in lst)', 'nested-scope'), ('sorted(lst, key=lambda v: -v)[0] + G', 'nested-scope'),
+    # an expression that binds a name keeps it to itself
+    ('(tmp := x + 1)', 'binding'), ('(acc := 77)', 'binding'),
+    # a value that *is* an exception object is a value, not a failure
+    ('ValueError("held")', 'exception-value'),
 ]
 
 
@@ -118,8 +126,13 @@ def prog():
 
 
 def ref_eval(expr, frame):
+    """What the expression is worth written at that line of the program: every name visible there - the frame's locals over its
+    module's globals - is visible to the whole expression, nested scopes (generator expressions, lambdas) included, and nothing the
+    expression binds (walrus) reaches the frame. (eval(expr, globals, locals) is not that: nested scopes would see the globals only.)"""
+    names = dict(frame.f_globals)
+    names.update(frame.f_locals)
     try:
-        return ('ok', eval(expr, frame.f_globals, frame.f_locals))
+        return ('ok', eval(expr, names))
     except BaseException as e:
         return ('err', e)
 
@@ -263,6 +276,9 @@ def _run_exprs(ctx, desc, src, exprs):
         ctx.violation('C10/agent-raised-into-host/' + type(run.escaped[0][1]).__name__,
                       f'handler raised {run.escaped[0][1]!r} evaluating {exprs!r} as {src}', desc)
         return None, None
+    if run.result != 1 or run.exc is not None:
+        ctx.violation('C10/expression-changed-the-program', f'{src} {exprs!r}: target([1]) returned {run.result!r} (exception {run.exc!r}); without the agent it returns 1', desc)
+        return None, None
     hit = [e for e in run.events if e.kind == 'line' and e.line == LINE][0]
     return agent, hit.data
 
@@ -290,6 +306,8 @@ def check_watch(ctx, desc, snap, w, ref, expr, cls, src='watch'):
             return
         var = snap.var_lookup.get(w.result.vid) if w.result is not None else None
         if var is not None and var.type == type(exc).__name__:
+            ctx.violation(f'C10/failed-expression-reported-as-value/{src}', f'{src} {expr!r}: reference raises {exc!r}; the agent delivered a good result of type '
+                          f'{var.type} (no error), indistinguishable from a value that is such an exception object', desc)
             return
         feat = 'agent-name-visible' if cls == 'agent-name' else cls
         ctx.violation(f'C10/scope/{src}/{feat}-no-error-result',
